@@ -268,6 +268,9 @@ def parseMapOp? (args : List String) : Option (MapOp DKey DVal DKey) :=
   | ["drop"] => some .drop
   | ["forget"] => some .forget
   | ["with_capacity", c] => (parseNat? c).map .with_capacity
+  | ["serde", dst] => do
+    let (isMap, i) ← parseReg? dst
+    if isMap then pure (.serde i) else none
   | _ => none
 
 def parseSetReg? (s : String) : Option Nat := do
@@ -293,6 +296,7 @@ def parseSetOp? (args : List String) : Option (SetOp DKey DKey) :=
   | ["into_iter", t, e] => do pure (.into_iter (← parseNat? t) (← parseEnd? e))
   | ["iter", script] => (parseScript? script).map .iter
   | ["clone", dst] => (parseSetReg? dst).map .clone_to
+  | ["serde", dst] => (parseSetReg? dst).map .serde
   | ["eq", o] => (parseSetReg? o).map .eq
   | ["from_iter", pulls, xs] => do pure (.from_iter (pulls == "1") (← parseKeys? xs))
   | ["extend", pulls, xs] => do pure (.extend (pulls == "1") (← parseKeys? xs))
